@@ -66,6 +66,31 @@ pub struct DsOpt {
     pub target_names: bool,
     /// records held as an `ArrayView2` instead of an owned array
     pub view: bool,
+    /// layout of the target array. 1-D: "standard" | "reversed_view" | "strided_view" | "reversed_owned";
+    /// 2-D: "standard" | "col_major" | "reversed_rows_view" | "transposed_view"
+    #[serde(default = "standard_layout")]
+    pub target_layout: String,
+    /// layout of the owned weight array: "standard" | "reversed_owned" | "strided_owned"
+    #[serde(default = "standard_layout")]
+    pub weight_layout: String,
+    /// "new" (DatasetBase::new) | "from_tuple" (DatasetBase::from((records, targets)))
+    #[serde(default = "ctor_new")]
+    pub ctor: String,
+    /// "ramp" (0.5, 1.75, ...) | "all_ones" | "all_zeros" | "mixed" (1, 0, 2.5, 1, ...)
+    #[serde(default = "weights_ramp")]
+    pub weight_values: String,
+    /// "with_weights" (builder method) | "field" (the public `weights` field is assigned)
+    #[serde(default = "weights_setter")]
+    pub weight_set: String,
+}
+pub fn weights_ramp() -> String {
+    "ramp".to_string()
+}
+pub fn weights_setter() -> String {
+    "with_weights".to_string()
+}
+pub fn ctor_new() -> String {
+    "new".to_string()
 }
 
 #[derive(Clone, Debug, Serialize, Deserialize)]
@@ -210,6 +235,28 @@ pub fn arr_l<F: Fl>(m: &Mat, p: usize, layout: &str) -> Array2<F> {
         "reversed_rows_view" => {
             let rev: Array2<F> = Array2::from_shape_fn((n, p), |(i, j)| F::cast(m[n - 1 - i][j]));
             rev.slice(s![..;-1, ..]).to_owned()
+        }
+        "front_rows_sliced" | "front_cols_sliced" | "front_both_sliced" => {
+            // an OWNED array cut down in place at the front (`slice_move`): its first element sits at a
+            // non-zero offset inside a larger allocation; everything outside the window is poison
+            let (dr, dc) = match layout {
+                "front_rows_sliced" => (2, 0),
+                "front_cols_sliced" => (0, 1),
+                _ => (2, 1),
+            };
+            let big: Array2<F> = Array2::from_shape_fn((n + dr, p + dc), |(i, j)| {
+                if i >= dr && j >= dc {
+                    F::cast(m[i - dr][j - dc])
+                } else {
+                    F::cast(-7777.25 - (i * 13 + j) as f64)
+                }
+            });
+            big.slice_move(s![dr.., dc..])
+        }
+        "reversed_cols_view" => {
+            // reversed FEATURE axis: contiguous in memory order, stride -1 along a row
+            let rev: Array2<F> = Array2::from_shape_fn((n, p), |(i, j)| F::cast(m[i][p - 1 - j]));
+            rev.slice(s![.., ..;-1]).to_owned()
         }
         _ => arr(m, p),
     }
@@ -1132,15 +1179,37 @@ impl<F: Fl> Fitted<F> {
     }
 }
 
-fn check_ds<F: Fl, D: Data<Elem = F>, T: AsTargets + Clone + PartialEq + std::fmt::Debug>(
+/// What the dataset was built from, as plain logical values (never read back from the dataset).
+struct DsExpect<E, I: ndarray::Dimension> {
+    targets: ndarray::Array<E, I>,
+    weights: Option<Vec<f32>>,
+    fnames: Vec<String>,
+    tnames: Vec<String>,
+}
+
+fn check_ds<F: Fl, D: Data<Elem = F>, T: AsTargets + std::fmt::Debug>(
     name: &'static str,
     case: &Case,
-    ds: DatasetBase<ArrayBase<D, Ix2>, T>,
+    built: Result<DatasetBase<ArrayBase<D, Ix2>, T>, String>,
+    exp: &DsExpect<T::Elem, T::Ix>,
     v: &mut Vec<Violation>,
     cnt: &mut Cnt,
-) {
+) where
+    T::Elem: PartialEq + std::fmt::Debug,
+{
     cnt.evals += 1;
     cnt.nontrivial += 1;
+    let ds = match built {
+        Ok(ds) => ds,
+        Err(pm) => {
+            v.push(Violation::new(
+                "dataset.construction_panic".to_string(),
+                format!("building the dataset ({} rows x {} features, targets {:?}, options {:?}) panicked: {}", case.train.len(), case.p, exp.targets.shape(), case.ds, pm),
+                case_json(case, name, None, json!({"op": "dataset", "what": "construction"})),
+            ));
+            return;
+        }
+    };
     let mk = |what: &str| case_json(case, name, None, json!({"op": "dataset", "what": what}));
     let prefix = if name.starts_with("norm_") { "norm_scaler" } else if name.starts_with("whiten_") { "whitener" } else { "linear_scaler" };
     let fitted = match guarded(|| Fitted::<F>::fit(name, &ds)) {
@@ -1155,10 +1224,29 @@ fn check_ds<F: Fl, D: Data<Elem = F>, T: AsTargets + Clone + PartialEq + std::fm
         }
     };
     let records: Array2<F> = ds.records().to_owned();
-    let targets = ds.targets().clone();
-    let weights: Option<Vec<f32>> = ds.weights().map(|w| w.to_vec());
-    let fnames: Vec<String> = ds.feature_names().to_vec();
-    let tnames: Vec<String> = ds.target_names().to_vec();
+    let (weights, fnames, tnames) = (&exp.weights, &exp.fnames, &exp.tnames);
+    let bits = |w: &Option<Vec<f32>>| w.as_ref().map(|w| w.iter().map(|x| x.to_bits()).collect::<Vec<_>>());
+    // the dataset as built must already publish what it was built from
+    match guarded(|| ds.weights().map(|w| w.to_vec())) {
+        Err(pm) => {
+            v.push(Violation::new("dataset.weights_accessor_panics".to_string(), format!("weights() of a dataset built with {} weights ({}) panicked: {}", exp.weights.as_ref().map_or(0, |w| w.len()), case.ds.as_ref().map_or("", |d| d.weight_layout.as_str()), pm), mk("weights before transform")));
+            return;
+        }
+        Ok(w) => {
+            if bits(&w) != bits(weights) {
+                v.push(Violation::new("dataset.built_weights_differ".to_string(), format!("dataset built with weights {:?} publishes {:?}", weights, w), mk("weights before transform")));
+                return;
+            }
+        }
+    }
+    if ds.targets().as_targets() != exp.targets.view() || ds.feature_names() != &fnames[..] || ds.target_names() != &tnames[..] {
+        v.push(Violation::new(
+            "dataset.built_metadata_differs".to_string(),
+            format!("dataset built with targets {:?}, names {:?} / {:?} publishes {:?}, {:?} / {:?}", exp.targets, fnames, tnames, ds.targets(), ds.feature_names(), ds.target_names()),
+            mk("metadata before transform"),
+        ));
+        return;
+    }
     let want = match guarded(|| fitted.tf_arr(records.clone())) {
         Ok(z) => z,
         Err(pm) => {
@@ -1197,12 +1285,22 @@ fn check_ds<F: Fl, D: Data<Elem = F>, T: AsTargets + Clone + PartialEq + std::fm
             ));
         }
     }
-    if *out.targets() != targets {
-        v.push(Violation::new(format!("{}.dataset.targets_changed", prefix), format!("{}: targets {:?} became {:?}", name, targets, out.targets()), mk("targets")));
+    if out.targets().as_targets() != exp.targets.view() {
+        v.push(Violation::new(format!("{}.dataset.targets_changed", prefix), format!("{}: targets {:?} became {:?}", name, exp.targets, out.targets()), mk("targets")));
     }
-    let wout: Option<Vec<f32>> = out.weights().map(|w| w.to_vec());
-    if wout.as_ref().map(|w| w.iter().map(|x| x.to_bits()).collect::<Vec<_>>()) != weights.as_ref().map(|w| w.iter().map(|x| x.to_bits()).collect::<Vec<_>>()) {
-        v.push(Violation::new(format!("{}.dataset.weights_changed", prefix), format!("{}: weights {:?} became {:?}", name, weights, wout), mk("weights")));
+    match guarded(|| out.weights().map(|w| w.to_vec())) {
+        Err(pm) => v.push(Violation::new(format!("{}.dataset.weights_accessor_panics", prefix), format!("{}: weights() of the transformed dataset panicked: {}", name, pm), mk("weights"))),
+        Ok(wout) => {
+            let field: Vec<f32> = out.weights.iter().cloned().collect();
+            let field = if field.is_empty() { None } else { Some(field) };
+            if bits(&wout) != bits(weights) || bits(&field) != bits(weights) {
+                v.push(Violation::new(
+                    format!("{}.dataset.weights_changed", prefix),
+                    format!("{}: dataset built with weights {:?}: after the transform weights() = {:?}, weights field = {:?}", name, weights, wout, field),
+                    mk("weights"),
+                ));
+            }
+        }
     }
     if out.feature_names() != &fnames[..] {
         v.push(Violation::new(format!("{}.dataset.feature_names_changed", prefix), format!("{}: feature names {:?} became {:?}", name, fnames, out.feature_names()), mk("feature names")));
@@ -1213,35 +1311,84 @@ fn check_ds<F: Fl, D: Data<Elem = F>, T: AsTargets + Clone + PartialEq + std::fm
 }
 
 fn run_dataset<F: Fl>(case: &Case, v: &mut Vec<Violation>, cnt: &mut Cnt) {
+    use ndarray::{s, ShapeBuilder};
     let opt = case.ds.clone().expect("dataset case without options");
     let a: Array2<F> = arr_l(&case.train, case.p, &case.layout);
     let n = a.nrows();
     let p = case.p;
-    let weights: Array1<f32> = if opt.weights { Array1::from_iter((0..n).map(|i| 0.5 + i as f32 * 1.25)) } else { Array1::zeros(0) };
+    // weights: logical values and the owned array (possibly with a negative / non-unit stride) handed over
+    let wlogical: Vec<f32> = (0..n)
+        .map(|i| match opt.weight_values.as_str() {
+            "all_ones" => 1.0,
+            "all_zeros" => 0.0,
+            "mixed" => [1.0f32, 0.0, 2.5, 1.0, 0.25][i % 5],
+            _ => 0.5 + i as f32 * 1.25,
+        })
+        .collect();
+    let weights: Array1<f32> = if !opt.weights {
+        Array1::zeros(0)
+    } else {
+        match opt.weight_layout.as_str() {
+            "reversed_owned" => Array1::from_iter(wlogical.iter().rev().cloned()).slice_move(s![..;-1]),
+            "strided_owned" => Array1::from_iter((0..2 * n).map(|k| if k % 2 == 0 { wlogical[k / 2] } else { -7.0 })).slice_move(s![..;2]),
+            _ => Array1::from(wlogical.clone()),
+        }
+    };
+    let exp_w = if opt.weights && n > 0 { Some(wlogical.clone()) } else { None };
     let fnames: Vec<String> = if opt.feature_names { (0..p).map(|j| format!("feature-{}", j)).collect() } else { vec![] };
+    // targets: logical arrays and their bases in the requested layout
+    let t1: Array1<usize> = Array1::from_iter((0..n).map(|i| (i * 7 + 3) % 5));
+    let t1_rev: Array1<usize> = Array1::from_iter(t1.iter().rev().cloned());
+    let t1_wide: Array1<usize> = Array1::from_iter((0..2 * n).map(|k| if k % 2 == 0 { t1[k / 2] } else { 99 }));
+    let t2: Array2<f64> = Array2::from_shape_fn((n, 2), |(i, j)| i as f64 * 1.5 - j as f64 * 100.25);
+    let t2_f: Array2<f64> = Array2::from_shape_vec((n, 2).f(), (0..2).flat_map(|j| (0..n).map(move |i| (i, j))).map(|(i, j)| t2[(i, j)]).collect()).unwrap();
+    let t2_rev: Array2<f64> = Array2::from_shape_fn((n, 2), |(i, j)| t2[(n - 1 - i, j)]);
+    let t2_tr: Array2<f64> = Array2::from_shape_fn((2, n), |(j, i)| t2[(i, j)]);
     let names = all_names(case);
     for name in names {
         if name == "minmax_flipped_5_2" {
             continue; // fit is an error by contract (checked in the "fit" families)
         }
         macro_rules! with_targets {
-            ($targets:expr, $nt:expr) => {{
+            ($targets:expr, $logical:expr, $nt:expr) => {{
                 let tnames: Vec<String> = if opt.target_names { (0..$nt).map(|j| format!("target-{}", j)).collect() } else { vec![] };
+                let exp = DsExpect { targets: $logical.clone(), weights: exp_w.clone(), fnames: fnames.clone(), tnames: tnames.clone() };
+                macro_rules! build {
+                    ($records:expr) => {
+                        guarded(|| {
+                            let base = if opt.ctor == "from_tuple" { DatasetBase::from(($records, $targets)) } else { DatasetBase::new($records, $targets) };
+                            let base = if opt.weight_set == "field" {
+                                let mut b = base;
+                                b.weights = weights.clone();
+                                b
+                            } else {
+                                base.with_weights(weights.clone())
+                            };
+                            base.with_feature_names(fnames.clone()).with_target_names(tnames.clone())
+                        })
+                    };
+                }
                 if opt.view {
-                    let ds = DatasetBase::new(a.view(), $targets).with_weights(weights.clone()).with_feature_names(fnames.clone()).with_target_names(tnames);
-                    check_ds::<F, _, _>(name, case, ds, v, cnt);
+                    check_ds::<F, _, _>(name, case, build!(a.view()), &exp, v, cnt);
                 } else {
-                    let ds = DatasetBase::new(a.clone(), $targets).with_weights(weights.clone()).with_feature_names(fnames.clone()).with_target_names(tnames);
-                    check_ds::<F, _, _>(name, case, ds, v, cnt);
+                    check_ds::<F, _, _>(name, case, build!(a.clone()), &exp, v, cnt);
                 }
             }};
         }
         if opt.targets == "usize_1d" {
-            let t: Array1<usize> = Array1::from_iter((0..n).map(|i| (i * 7 + 3) % 5));
-            with_targets!(t, 1usize);
+            match opt.target_layout.as_str() {
+                "reversed_view" => with_targets!(t1_rev.slice(s![..;-1]), t1, 1usize),
+                "strided_view" => with_targets!(t1_wide.slice(s![..;2]), t1, 1usize),
+                "reversed_owned" => with_targets!(t1_rev.clone().slice_move(s![..;-1]), t1, 1usize),
+                _ => with_targets!(t1.clone(), t1, 1usize),
+            }
         } else {
-            let t: Array2<f64> = Array2::from_shape_fn((n, 2), |(i, j)| i as f64 * 1.5 - j as f64 * 100.25);
-            with_targets!(t, 2usize);
+            match opt.target_layout.as_str() {
+                "col_major" => with_targets!(t2_f.clone(), t2, 2usize),
+                "reversed_rows_view" => with_targets!(t2_rev.slice(s![..;-1, ..]), t2, 2usize),
+                "transposed_view" => with_targets!(t2_tr.t(), t2, 2usize),
+                _ => with_targets!(t2.clone(), t2, 2usize),
+            }
         }
     }
 }
